@@ -1,4 +1,5 @@
 import FalconModel.Query
+import FalconModel.Getters
 open Qs
 def hv (c : Char) : Nat := if c.isDigit then c.toNat - 48 else c.toNat - 87
 def fromHex (s : String) : List UInt8 :=
@@ -6,14 +7,82 @@ def fromHex (s : String) : List UInt8 :=
     | a :: b :: r => (hv a * 16 + hv b).toUInt8 :: go r
     | _ => []
   if s == "-" then [] else go s.toList
+def hexDigitC (n : Nat) : Char := if n < 10 then Char.ofNat (48 + n) else Char.ofNat (87 + n)
+def toHex (bs : List UInt8) : String :=
+  if bs.isEmpty then "-" else String.ofList (bs.flatMap fun b => [hexDigitC (b.toNat / 16), hexDigitC (b.toNat % 16)])
 def showStr (s : Str) : String := if s.isEmpty then "-" else ".".intercalate (s.map toString)
 def showVal : Val → String
   | .one v => "1:" ++ showStr v
   | .many vs => "m:" ++ ",".intercalate (vs.map showStr)
+
+/-! ### getter ops: the store holds rendered values (σ := String) -/
+def optInt (s : String) : Option Int := if s == "none" then none else s.toInt?
+/-- `none` | `-` (empty dict) | `<name hex>:<token>,…` -/
+def parseStore (s : String) : Option (Gt.Store String) :=
+  if s == "none" then none
+  else if s == "-" then some []
+  else some ((s.splitOn ",").map fun e =>
+    match e.splitOn ":" with
+    | [k, v] => (U8.decodeReplace (fromHex k), v)
+    | _ => ([], "?"))
+def showStore : Option (Gt.Store String) → String
+  | none => "none"
+  | some [] => "-"
+  | some l => ";".intercalate (l.map fun e => showStr e.1 ++ "=" ++ e.2)
+def showBool (b : Bool) : String := if b then "True" else "False"
+def showStrs (l : List Str) : String := "[" ++ ",".intercalate (l.map showStr) ++ "]"
+def showInts (l : List Int) : String := "[" ++ ",".intercalate (l.map toString) ++ "]"
+def showOut (f : α → String) : Gt.Out α String → String
+  | .indexError => "indexError"
+  | .ret r st =>
+    (match r with
+      | .value v => "value:" ++ f v
+      | .default => "default"
+      | .missing400 => "missing400"
+      | .invalid400 => "invalid400") ++ " | " ++ showStore st
+
+def parseCps (s : String) : Str := if s == "-" then [] else (s.splitOn ".").map String.toNat!
+
+/-- `<khex>=1:<vhex>` | `<khex>=m:<vhex>,<vhex>,…` joined by `;` (`-` = empty mapping; `m:` alone = empty list) -/
+def parseMapping (s : String) : List (List UInt8 × Gt.BVal) :=
+  if s == "-" then [] else (s.splitOn ";").map fun item =>
+    match item.splitOn "=" with
+    | [k, v] =>
+      if v.startsWith "1:" then (fromHex k, .one (fromHex (v.drop 2).toString))
+      else
+        let body := (v.drop 2).toString
+        (fromHex k, .many (if body.isEmpty then [] else (body.splitOn ",").map fromHex))
+    | _ => ([], .one [])
+
 partial def loop (h : IO.FS.Stream) : IO Unit := do
   let line ← h.getLine
   if line.isEmpty then return ()
   match line.trimAscii.toString.splitOn " " with
+  | ["getparam", q, kb, csv, name, req, st] =>
+    let p := parseQS (fromHex q) (kb == "1") (csv == "1")
+    IO.println (showOut showStr (Gt.getParam showStr p (U8.decodeReplace (fromHex name)) (req == "1") (parseStore st)))
+  | ["getint", q, kb, csv, name, req, mn, mx, st] =>
+    let p := parseQS (fromHex q) (kb == "1") (csv == "1")
+    IO.println (showOut toString (Gt.getInt toString p (U8.decodeReplace (fromHex name)) (req == "1") (optInt mn) (optInt mx) (parseStore st)))
+  | ["getbool", q, kb, csv, name, req, blank, st] =>
+    let p := parseQS (fromHex q) (kb == "1") (csv == "1")
+    IO.println (showOut showBool (Gt.getBool showBool p (U8.decodeReplace (fromHex name)) (req == "1") (blank == "1") (parseStore st)))
+  | ["getlist", q, kb, csv, name, req, tr, st] =>
+    let p := parseQS (fromHex q) (kb == "1") (csv == "1")
+    let nm := U8.decodeReplace (fromHex name)
+    if tr == "int" then
+      IO.println (showOut showInts (Gt.getListT Gt.pyInt showInts p nm (req == "1") (parseStore st)))
+    else
+      IO.println (showOut showStrs (Gt.getList showStrs p nm (req == "1") (parseStore st)))
+  | ["pyint", cps] =>
+    IO.println (match Gt.pyInt (parseCps cps) with | some v => toString v | none => "VE")
+  | ["tables"] =>
+    IO.println ("T " ++ ",".intercalate (Gt.trueStrings.map showStr) ++ " F " ++ ",".intercalate (Gt.falseStrings.map showStr)
+      ++ " Z " ++ ",".intercalate (Gt.digitZeros.map toString) ++ " MAXDIGITS " ++ toString Gt.maxStrDigits)
+  | ["intws", lo, hi] =>     -- the code points in [lo, hi) that int() strips
+    IO.println ("W " ++ ",".intercalate (((List.range (hi.toNat! - lo.toNat!)).map (· + lo.toNat!)).filter Gt.isIntWs |>.map toString))
+  | ["toqs", cdl, pfx, m] =>
+    IO.println (toHex (Gt.toQueryStr (parseMapping m) (cdl == "1") (pfx == "1")))
   | [kb, csv, hx] =>
     let p := parseQS (fromHex hx) (kb == "1") (csv == "1")
     IO.println (" ".intercalate (p.map fun e => showStr e.1 ++ "=" ++ showVal e.2))
